@@ -4,26 +4,38 @@ from session_common import *
 ID = 'C02'
 COQ_TARGETS = ['Props/Properties_C02.vo']
 PROPS_FILES = ['Props/Properties_C02.v']
-THEOREMS = ['C02_message', 'C02_message_checker_sound', 'C02_envelope', 'C02_trace_received', 'C02_trace_spf_none']
+THEOREMS = ['C02_message', 'C02_submission_additions', 'C02_submission_constants', 'C02_submission_full_refuted', 'C02_submission_partial',
+            'C02_handoff_message', 'C02_message_checker_sound', 'C02_envelope', 'C02_trace_received', 'C02_trace_spf_none']
 ENGINES = [ENGINE]
 RULE = ('sessions with one to three accepted transactions whose data exercise the copy loops: bodies of arbitrary octets 1..255 except bare CR/LF, '
         'lines of 0, 1, 997..999 octets, lines that are dots only or start with one to three dots, empty header, empty body, no separator line, '
         'Received: floods below the hop limit, 8-bit data; recipient sets mixing accepted, unknown, remote-refused and address-literal recipients; '
-        'HELO and EHLO; v4 and v6 clients (different Received: text); relay by IP (no Received-SPF). The hand-off recorded by the qmail-queue stand-in '
-        '(envelope and message, date masked) is compared byte for byte with the model, whose trace header is the extracted model of '
-        'write_received()/spfreceived(). non-trivial = at least one hand-off; distinct by case text')
+        'HELO and EHLO; v4 and v6 clients (different Received: text); relay by IP (no Received-SPF). As many sessions on the submission port (cfg port=587; '
+        'client in relayclients, authenticated by AUTH PLAIN, both, or neither): header blocks with every subset of Date / From / Message-Id in any order and '
+        'letter case, duplicates, near misses (Date without colon, XDate:, " Date:", Resent-Date: ...), the names in the body, lines starting with dots, 8-bit octets in '
+        'header and body, empty header, no body, nothing at all, bounce and mixed-case senders, several transactions with different senders, size limits hit '
+        'exactly and by one, strict mode on top, a dying qmail-queue; and the same payloads on ports 25, 465, 58, 5870 (nothing may be added). The hand-off recorded by '
+        'the qmail-queue stand-in (envelope and message; dates masked: the added Date: only where it equals the Received: date) is compared byte for byte with the model, '
+        'whose trace header is the extracted model of write_received()/spfreceived(); every hand-off of a simple session is also judged by the extracted checker '
+        'handoff_msg_ok (the property as stated). non-trivial = at least one hand-off; distinct by case text')
 TRUSTED_BASE = TRUSTED_COMMON + ['coq/Model/Trace.v: hand transcription of write_received() and of the SPF_NONE branch of spfreceived(); used by the model side of the correspondence run, so every compared message checks it']
 ASSUMPTIONS = ASSUMPTIONS_COMMON + [
     'strings embedded in the trace header other than HELO argument and addresses (reverse DNS name, TCPREMOTEINFO, authenticated user name, certificate subject, cipher name) are assumed free of CR/LF; the user name of SMTP AUTH is client-chosen and only constrained by what checkpassword accepts',
-    'the Date/From/Message-Id additions of submission mode (port 587) are outside this model',
+    'submission mode: the date of the added Date: field is compared only as "the same 31 octets as the date of the Received: line" (both are masked by the harness), the Message-Id time stamp is the wrapped gettimeofday() of the harness, control/msgidhost is msgid.example.org (the default, control/me, is not exercised)',
     'Received-SPF for results other than "none" is property C11',
 ]
 LEVEL_TEXT = ('Coq theorems: (message) for every reader state and byte stream, what smtp_data wrote when it reached the final dot is the trace header '
-              'followed by exactly the transmitted data lines in order with CRLF -> LF and one leading dot removed; (envelope) for all sessions every '
+              'followed by exactly the transmitted data lines in order with CRLF -> LF and one leading dot removed; on the submission port exactly the missing '
+              'ones of Date, From, Message-Id (in this order, each once, literal text regenerated from data.c) stand between the last header line and the rest, on every '
+              'other port nothing is added; (session) every hand-off of every session is such a message together with the envelope of the same sender - the From: field '
+              'carries the F address; (envelope) for all sessions every '
               'hand-off envelope is F sender NUL (T recipient NUL)* NUL of the transaction open at that point, literals rewritten to localiphost; '
               '(trace) the Received: field is three correctly folded lines without CR for all embedded strings that are themselves free of CR/LF. '
+              'The property as worded ("when the client omitted them", judged on the stored lines) is refuted by a witness (C02_submission_full_refuted: '
+              'a header line ".Date: x") and proved for all messages outside that decidable class (C02_submission_partial). '
               'Tied to the binary by byte-for-byte comparison of recorded hand-offs in whole-program runs.')
-LEVEL_NOTE = 'Partial: submission-mode header additions and non-"none" Received-SPF are not in this model; address normalisation (lower-casing) is the address oracle (C14).'
+LEVEL_NOTE = ('Partial: known finding F-C02-2 (a field hidden behind a needless leading dot is added a second time on port 587); the date text, the clock and control/msgidhost are oracles; '
+              'non-"none" Received-SPF is not in this model (C11); address normalisation (lower-casing) is the address oracle (C14).')
 TECHNIQUE = 'Coq loop invariant over smtp_data with a ghost list of data lines; simulation proof for envelopes; structural proof of the header builder; whole-program byte comparison of hand-offs'
 DESIGN_REF = 'DESIGN.md section 5, C02'
 
@@ -63,8 +75,61 @@ def gen_cases(engine, rng, tier):
                 chunks.append(session_gen.rcpt(rng, rng.choice(['ok', 'ok', 'ok', 'no', 'remote', 'literal', 'syntax', 'mixed', 'mixed'])))
             chunks.append(b'DATA\r\n'); chunks.append(data_body(rng))
         out.append(session_gen.case(cfg, chunks))
+    # the submission port: every subset / order / case of Date, From, Message-Id, duplicates, near misses, dot lines, 8-bit, empty
+    # header, no body, size boundary, dying qmail-queue; a few with a field hidden behind a leading dot (known finding F-C02-2)
+    for i in range(n):
+        cfg, chunks = session_gen.subm_session(rng, hidden=(i % 25 == 7))
+        out.append(session_gen.case(cfg, chunks))
+    # the same payloads on port 25: nothing may be added there
+    for _ in range(n // 6):
+        cfg, chunks = session_gen.subm_session(rng)
+        out.append(session_gen.case(cfg.replace('port=587', 'port=' + rng.choice(['25', '25', '465', '5870', '58'])), chunks))
     return out + session_gen.gen(rng, 100 if tier == 'quick' else 2000)
 
 
 def nontrivial(case, c_out):
     return any(t.startswith('Q') for t in c_out.split())
+
+
+import re
+_HIDDEN = re.compile(rb'^\.(date|from|message-id):', re.I)
+
+
+def classify(case, c_out):
+    """F-C02-2 (Spec/SessionSpec.v:hidden_field): submission port, and the header block of a DATA payload has a line that, behind a
+    needless leading dot, begins with Date: / From: / Message-Id:"""
+    f = case.split()
+    if len(f) < 3 or b'port=587' not in R.unhx(f[1]).split(b';'):
+        return None
+    chunks = [R.unhx(x) for x in f[2:]]
+    for i in range(1, len(chunks)):
+        if chunks[i - 1].upper() == b'DATA\r\n':
+            for l in chunks[i].split(b'\r\n'):
+                if l in (b'', b'.'):
+                    break
+                if _HIDDEN.match(l):
+                    return 'subm-dot-hidden-field'
+    return None
+
+
+def distribution(results):
+    d = dict(handoffs=0, subm_handoffs=0, subm_added_date=0, subm_added_from=0, subm_added_msgid=0, subm_nothing_added=0, subm_mail_refused=0, r552=0, r550=0, simple_cases=0)
+    for r in results:
+        f = r['case'].split()
+        subm = len(f) > 1 and b'port=587' in R.unhx(f[1]).split(b';')
+        toks = r['c'].split()
+        for t in toks:
+            if t.startswith('Q'):
+                d['handoffs'] += 1
+                if subm:
+                    d['subm_handoffs'] += 1
+                    m = R.unhx(t.split('/')[1])
+                    a = (b'\nDate: ' + b'D' * 31 + b'\n' in m, b'\nMessage-Id: <1000000000.123456@msgid.example.org>\n' in m)
+                    d['subm_added_date'] += a[0]; d['subm_added_msgid'] += a[1]
+                    fr = re.search(rb'\nFrom: <[^\n]*>\n', m) is not None
+                    d['subm_added_from'] += fr
+                    d['subm_nothing_added'] += not (a[0] or a[1] or fr)
+            elif t == 'r552': d['r552'] += 1
+            elif t == 'r550': d['r550'] += 1
+        if r['spec'] != 'pre': d['simple_cases'] += 1
+    return d
